@@ -61,6 +61,20 @@ def run(o, ctx, tier, seed, replay=None):
             cur = min(max(cur, 0), END - 1)
             seq.append(cur)
         cl.append("DATECACHE " + ",".join(map(str, seq)))
+    # readings that walk ACROSS a unit boundary (minute, hour, day; month / year / leap-day starts): the cache holds the last second
+    # before the boundary and the next reading is exactly the boundary second, one after it, or a whole unit later; also from above
+    import calendar
+    for _ in range(250 if t == "quick" else 6000):
+        unit = r.choice([60, 3600, 86400, 86400, 86400])
+        if r.random() < 0.3:
+            y = r.randrange(1970, 10000); mth = r.choice([1, 2, 3, 3, 12, r.randrange(1, 13)])
+            anchor = calendar.timegm((y, mth, 1, 0, 0, 0))
+        else:
+            anchor = r.randrange(1, END // unit) * unit
+        walk = r.choice([[-2, -1, 0, 1], [-1, 0], [-1, 0, 0, 1], [-1, 1], [0, -1, 0], [-unit, 0], [-unit - 1, 0, 1], [-1, unit], [-1, unit - 1, unit],
+                         [-3, -1, 0, unit, unit + 1], [1, 0, -1], [-1, 0, unit - 1, unit], [-unit, -1, 0, 2 * unit]])
+        seq = [min(max(anchor + d, 0), END - 1) for d in walk]
+        cl.append("DATECACHE " + ",".join(map(str, seq)))
     diff_run(o, ctx, cl, oracle=oracle, nontrivial=lambda c, a: "," in c, tags=lambda c, a: "cache:len=%d" % (c.count(",") + 1))
 
 
@@ -84,7 +98,7 @@ def oracle(case, impl, model):
 
 register("C18", lean=["Khttp.Props.C18"], run=run,
          rule="DATE cases: fixed boundary instants; first/last second of every month of every year 1970-9999 (thorough; quick: 1970-2109, 2390-2409, 9990-9999 and 300 random years); "
-              "20k (quick) / 400k (thorough) random days x seconds {0,1,59,60,3599,3600,86399,random}; DATECACHE: 300/5000 scripted clock-reading sequences (equal, +1, +2, backwards, gaps of one day and more with the second-of-day moving either way, month/year/century gaps) "
+              "20k (quick) / 400k (thorough) random days x seconds {0,1,59,60,3599,3600,86399,random}; DATECACHE: 300/5000 scripted clock-reading sequences + 250/6000 walks across minute / hour / day / month / year boundaries (equal, +1, +2, backwards, gaps of one day and more with the second-of-day moving either way, month/year/century gaps) "
               "through an interposed clock_gettime on a fresh thread. distinct_nontrivial = all distinct case lines (every instant is a distinct calendar computation).",
          assumptions=["0 <= secs < 253402300800 (years 1970..9999)", "the kernel's CLOCK_REALTIME_COARSE lags the wall clock by at most one tick: outside the model",
                       "i64 arithmetic modelled on unbounded Int (no intermediate exceeds i64 for any i64 input: stated in the model)"],
